@@ -430,6 +430,10 @@ def gen_case(rng, size=None, features=None):
             ops.append(("ifc", [t] + ([rng.choice(tgts)] if rng.random() < 0.4 else []), False) if rng.random() < 0.7 else ("redo", [t], False))
             ops.append((rng.choice(["w", "wp"]), t, 110 + rng.randint(0, 5)))
             ops.append(("redo", [t], False) if rng.random() < 0.5 else ("ifc", [t], False))
+            if rng.random() < 0.6:
+                # whatever depends on it is brought up to date, and then nothing must run any more
+                ops.append(("ifc", list(tgts), False))
+                ops.append(("ifc", list(tgts), False))
         elif r < 0.80:
             t = rng.choice(tgts)
             i = tgts.index(t)
